@@ -38,7 +38,7 @@ theorem aset_self {α : Type} (m : AL α) (k : String) (v : α) (h : aget m k = 
 
 theorem adel_cons {α : Type} (k₀ : String) (v₀ : α) (m : AL α) (k : String) :
     adel ((k₀, v₀) :: m) k = if k₀ = k then adel m k else (k₀, v₀) :: adel m k := by
-  by_cases h : k₀ = k <;> simp [adel, List.filter_cons, h]
+  by_cases h : k₀ = k <;> simp [adel, h]
 
 theorem aget_adel_same {α : Type} (m : AL α) (k : String) : aget (adel m k) k = none := by
   induction m with
@@ -178,7 +178,7 @@ theorem findIndex_some (l : List Nat) (x i : Nat) (h : findIndex l x = some i) :
       have := ih j hj
       have hyx : ¬ y = x := fun hh => hxy hh.symm
       refine ⟨by simp; omega, ?_⟩
-      simp [List.erase_cons, hyx, this.2]
+      simp [hyx, this.2]
 
 /-- all three slice cases of `FrontGroup.Remove` (first / last / middle) together
 are "erase the first occurrence, if any" -/
@@ -365,9 +365,9 @@ theorem view_step (ser : String → List Nat) (s : St) (op : Op) (c f : String) 
         by_cases hf : f' = f
         · subst hf
           cases hg2 : aget ch.groups f' <;> simp [hg2, aget_aset_same, removeGo_eq_erase]
-        · cases hg2 : aget ch.groups f' <;> simp [hg2, aget_aset_other _ _ _ _ hf, hf]
+        · cases hg2 : aget ch.groups f' <;> simp [aget_aset_other _ _ _ _ hf, hf]
     · unfold view
-      cases hg : aget s.svc.chans n <;> simp [hg, aget_aset_other _ _ _ _ hc, hc]
+      cases hg : aget s.svc.chans n <;> simp [aget_aset_other _ _ _ _ hc, hc]
   | bcast n r m => rfl
   | sadd => rfl
   | sdel id => rfl
@@ -464,7 +464,7 @@ theorem tally_step (c f : String) (x : Nat) (v : Option (List Nat)) (t : Tally) 
     · by_cases hy : y = x
       · subst hy; simp [hcf, List.count_append, h1]; omega
       · have : ¬ (c' = c ∧ f' = f ∧ y = x) := fun hh => hy hh.2.2
-        simp [hcf, this, List.count_append, h1, h2, List.count_cons, hy]
+        simp [hcf, List.count_append, h1, h2, hy]
     · have : ¬ (c' = c ∧ f' = f ∧ y = x) := fun hh => hcf ⟨hh.1, hh.2.1⟩
       simp [hcf, this, h1, h2]
   | leave c' f' y =>
@@ -522,7 +522,7 @@ theorem joinSeq_step (c f : String) (v : Option (List Nat)) (j : List Nat) (op :
     simp only [stepView, stepJoinSeq]
     by_cases hcf : c' = c ∧ f' = f
     · cases v with
-      | none => simpa [hcf] using h
+      | none => simp [hcf]
       | some l => simp only [hcf, and_self, if_true, Option.map_some, Option.getD_some] at h ⊢
                   exact List.Sublist.trans List.erase_sublist h
     · simp [hcf, h]
